@@ -501,7 +501,7 @@ def path_algebra(ctx, R):
     class FakeFs:
         pass
     fake = FakeFs()
-    atoms = ['a', 'b.txt', 'c.tar.gz', '.hidden', 'x y', 'Dir', '.', '..', 'é', 'n.', '']
+    atoms = ['a', 'b.txt', 'c.tar.gz', '.hidden', 'x y', 'Dir', '.', '..', '..', 'é', 'n.', '']
     def seg():
         k = rng.randint(0, 4)
         body = '/'.join(rng.choice(atoms) for _ in range(k))
@@ -537,10 +537,12 @@ def path_algebra(ctx, R):
             except (ValueError, TypeError) as e:
                 return None
         real = [list(p._parts), str(p), p.name, p.suffix, p.stem, attempt(lambda: p.parent), attempt(lambda: p.joinpath(*other)),
-                attempt(lambda: p.with_name(nm)), attempt(lambda: p.relative_to(*other)) if other else 'skip', p.is_absolute()]
+                attempt(lambda: p.with_name(nm)), attempt(lambda: p.relative_to(*other)) if other else 'skip', p.is_absolute(),
+                attempt(lambda: p.resolve())]
         model = [[T(x) for x in g[0]], T(g[1]), T(g[2]), T(g[3]), T(g[4]), [T(x) for x in g[5]], [T(x) for x in g[6]],
-                 ([T(x) for x in g[7][0]] if g[7] else None), ([T(x) for x in g[8][0]] if g[8] else None), bool(g[9])]
-        labels = ['_parts', 'str', 'name', 'suffix', 'stem', 'parent', 'joinpath', 'with_name', 'relative_to', 'is_absolute']
+                 ([T(x) for x in g[7][0]] if g[7] else None), ([T(x) for x in g[8][0]] if g[8] else None), bool(g[9]),
+                 ([T(x) for x in g[10][0]] if g[10] else None)]
+        labels = ['_parts', 'str', 'name', 'suffix', 'stem', 'parent', 'joinpath', 'with_name', 'relative_to', 'is_absolute', 'resolve']
         ctx.case(('path-alg', tuple(segs), tuple(other), nm), len(real[0]) > 1, 'path-algebra')
         for lab, a, b in zip(labels, real, model):
             if a == 'skip':
